@@ -14,6 +14,15 @@ Vocabulary (Xp/Proofs/C15.lean):
   `Inv revs c`   – every entry a revision of `revs` would find under the id it looks
                    up (`Has`) is `EntryOK` for it;
   `Compat revs`  – revisions whose cache paths coincide carry the same image.
+
+The theorems are per call (`recStep`, `sigStep`) and per history (`World.run`); the
+controllers of the real run are long-lived (one revision reconciler, one signature
+reconciler, one parser, linter, image backend per package type, one cache), so any state
+they carry from one call to the next shows as a difference to this per-call model.
+A fault plan `f : Faults` also fixes the class of every API error (`getE`, `fin`, `upd`,
+`stat`, `estConflict`) and what a third party did to the revision between the reconciler's
+read and its first write (`env`; equivalently a stale cached read).  All theorems
+quantify over all of it.
 -/
 namespace Xp.C15
 
@@ -76,7 +85,8 @@ theorem installed_eq_declared_history (feature : Bool) (revs : List Rev) (hc : C
   apply run_forall feature revs hc (Installs revs) _ steps w hinv
   intro w hw s objs hest
   cases s with
-  | verify i cfg valid =>
+  | configs cfgs => simp only [World.step] at hest; cases hest
+  | verify i sf =>
     simp only [World.step] at hest
     split at hest <;> cases hest
   | reconcile i active deleted f =>
@@ -191,140 +201,282 @@ theorem verify_gate (r : Rev) (f : Faults) (c : Cache) (st : RevSt) (hv : st.ver
     (st.deleting = false → (recStep true true r f c st).1 = c) ∧
     ((recStep true true r f c st).2.1.health = .healthy → st.health = .healthy) := by
   unfold recStep
-  by_cases hp : st.present = true
-  · by_cases hd : st.deleting = true
-    · simp only [hp, hd, Bool.not_true, Bool.false_eq_true, if_false, if_true]
-      split <;> simp
-    · have hd' : st.deleting = false := by simpa using hd
-      simp only [hp, hd', hv, Bool.not_true, Bool.false_eq_true, if_false, Bool.not_false, Bool.and_self, if_true]
-      split <;> simp
-  · have hp' : st.present = false := by simpa using hp
-    simp [hp']
+  split
+  · exact ⟨rfl, fun _ => rfl, id⟩
+  · split
+    · exact ⟨rfl, fun _ => rfl, id⟩
+    · split
+      · rename_i hd
+        split
+        · exact ⟨rfl, fun _ => rfl, id⟩
+        · split <;> (refine ⟨rfl, fun h => ?_, ?_⟩ <;> simp_all)
+      · simp only [hv, Bool.not_false, Bool.and_self, if_true]
+        split
+        · split
+          · exact ⟨rfl, fun _ => rfl, id⟩
+          · refine ⟨rfl, fun _ => rfl, ?_⟩; intro h; cases h
+        · exact ⟨rfl, fun _ => rfl, id⟩
+
+/-! ### interference and stale reads -/
+
+/-- When the revision object the reconciler read is not the live one – a third party
+(package manager, signature controller, user, restore tool) wrote to it after the read, or
+the informer cache served an older version – for ANY such write (`f.env ≠ none`) and every
+other fault: `Establish` is not reached and nothing the reconciler writes to the revision
+lands (the state it returns is the state it read; the live object is what the third party
+made of it, see `World.step`). -/
+theorem stale_never_establishes (fixed feature : Bool) (r : Rev) (f : Faults) (c : Cache) (st : RevSt)
+    (hs : f.env ≠ .none) :
+    (recStep fixed feature r f c st).2.2.est = none ∧ (recStep fixed feature r f c st).2.1 = st := by
+  have : f.stale = true := by simp [Faults.stale, hs]
+  exact ⟨(recStep_stale fixed feature r f c st this).2, (recStep_stale fixed feature r f c st this).1⟩
+
+/-- The verification gate holds for the LIVE object: with verification enabled, if the
+revision as the third party left it (`applyEnv f.env st`: status wiped, re-created under the
+same name, …) is not Verified, nothing is established – whatever the reconciler read. -/
+theorem verify_gate_live (r : Rev) (f : Faults) (c : Cache) (st : RevSt)
+    (hv : (applyEnv f.env st).verif.isTrue = false) :
+    (recStep true true r f c st).2.2.est = none := by
+  by_cases he : f.env = .none
+  · rw [he] at hv
+    exact (verify_gate r f c st hv).1
+  · exact (stale_never_establishes true true r f c st he).1
+
+/-- `Establish` is reached only by a reconcile whose every API call on the revision
+succeeded up to there: the read was served and fresh, and the metadata update went through. -/
+theorem establish_needs_fresh_object (feature : Bool) (r : Rev) (f : Faults) (c : Cache) (st : RevSt)
+    (h : (recStep true feature r f c st).2.2.est ≠ none) :
+    f.env = .none ∧ f.getE = .ok ∧ f.upd = .ok ∧ st.present = true ∧ st.deleting = false := by
+  cases hest : (recStep true feature r f c st).2.2.est with
+  | none => exact absurd hest h
+  | some objs =>
+    obtain ⟨hp, hd, _, p, _, _, _, _, hu, hs, hg⟩ := recStep_est feature r f c st objs hest
+    refine ⟨?_, hg, hu, hp, hd⟩
+    cases he : f.env <;> simp [Faults.stale, he] at hs ⊢
+
+/-! ### error classes -/
+
+/-- A failed `Establish` – of whatever error class (Conflict is requeued, everything else
+reported) – never makes the revision Healthy and never changes its object references. -/
+theorem establish_failure_not_healthy (fixed feature : Bool) (r : Rev) (f : Faults) (c : Cache) (st : RevSt)
+    (hf : f.est = true) :
+    ((recStep fixed feature r f c st).2.1.health = .healthy → st.health = .healthy ∨ (st.active = false ∧ st.refs > 0)) ∧
+    (recStep fixed feature r f c st).2.1.refs = st.refs := by
+  constructor
+  · intro h
+    rcases recStep_health fixed feature r f c st h with h1 | ⟨h1, h2, _⟩ | ⟨_, h2, _⟩
+    · exact Or.inl h1
+    · exact Or.inr ⟨h1, h2⟩
+    · rw [hf] at h2; cases h2
+  · rcases recStep_refs fixed feature r f c st with h1 | ⟨_, h2, _⟩
+    · exact h1
+    · rw [hf] at h2; cases h2
+
+/-- A revision becomes Healthy, or its recorded object references change, only in a
+reconcile that reached `Establish` without error on a fresh object and whose status update
+landed – or, for Healthy, on the inactive-with-references shortcut. -/
+theorem healthy_only_via_establish (fixed feature : Bool) (r : Rev) (f : Faults) (c : Cache) (st : RevSt) :
+    ((recStep fixed feature r f c st).2.1.health = .healthy → st.health ≠ .healthy →
+      ((recStep fixed feature r f c st).2.2.est ≠ none ∧ f.est = false ∧ f.stat = false ∧ f.env = .none) ∨
+      (st.active = false ∧ st.refs > 0)) ∧
+    ((recStep fixed feature r f c st).2.1.refs ≠ st.refs →
+      (recStep fixed feature r f c st).2.2.est ≠ none ∧ f.est = false ∧ f.stat = false ∧ f.env = .none) := by
+  have key : f.statO = false → f.stat = false ∧ f.env = .none := by
+    intro h
+    simp only [Faults.statO, Faults.stale, Bool.or_eq_false_iff] at h
+    refine ⟨h.2, ?_⟩
+    cases he : f.env <;> simp [he] at h ⊢
+  constructor
+  · intro hh hn
+    rcases recStep_health fixed feature r f c st hh with h1 | ⟨h1, h2, _⟩ | ⟨h1, h2, h3⟩
+    · exact absurd h1 hn
+    · exact Or.inr ⟨h1, h2⟩
+    · exact Or.inl ⟨h1, h2, (key h3).1, (key h3).2⟩
+  · intro hr
+    rcases recStep_refs fixed feature r f c st with h1 | ⟨h1, h2, h3⟩
+    · exact absurd h1 hr
+    · exact ⟨h1, h2, (key h3).1, (key h3).2⟩
+
+/-! ### the signature controller -/
 
 /-- The signature controller turns Verified to True only when no verification config
-matches the image (skipped) or the configured validator accepted the signature. -/
-theorem verified_only_by_validation (cfg : SigCfg) (valid : Bool) (st : RevSt)
-    (h : (sigStep cfg valid st).1.verif.isTrue = true) :
+matches the image (skipped) or the configured validator accepted the signature – whatever
+the read and the status update do. -/
+theorem verified_only_by_validation (cfg : SigCfg) (valid : Bool) (sf : SigF) (st : RevSt)
+    (h : (sigStep cfg valid sf st).1.verif.isTrue = true) :
     st.verif.isTrue = true ∨ cfg = .none ∨ (cfg = .some ∧ valid = true) := by
   unfold sigStep at h
-  split at h
-  · exact Or.inl h
-  · split at h
-    · exact Or.inl h
-    · split at h
-      · exact Or.inl h
-      · cases cfg with
-        | none => exact Or.inr (Or.inl rfl)
-        | err => simp [Verif.isTrue] at h
-        | some =>
-          cases valid with
-          | true => exact Or.inr (Or.inr ⟨rfl, rfl⟩)
-          | false => simp [Verif.isTrue] at h
+  repeat' split at h
+  all_goals first
+    | exact Or.inl h
+    | (simp [Verif.isTrue] at h; done)
+    | skip
+  all_goals simp_all
 
-/-- step `s` is a signature reconcile of revision `i` that may legitimately verify it -/
-def authorizes (i : Nat) : Step → Prop
-  | .verify j cfg valid => j = i ∧ (cfg = .none ∨ (cfg = .some ∧ valid = true))
-  | .reconcile _ _ _ _ => False
+/-- `ImageVerificationConfigFor` answers "no config" exactly when no ImageConfig that
+carries a verification section declares a non-empty prefix of the image … -/
+theorem no_config_iff_none_matches (cfgs : List ImgCfg) (image : String) :
+    (verifCfgFor cfgs image false).1 = .none ↔
+      ∀ c ∈ cfgs, c.verifies = true → ∀ p ∈ c.prefixes, p.isPrefixOf image = true → p.utf8ByteSize = 0 := by
+  have hok := scanCfgs_ok ImgCfg.verifies image cfgs cfgs (fun _ h => h) (0, none) (Or.inl rfl)
+  constructor
+  · intro h c hc hv p hp hm
+    have hge := scanCfgs_ge ImgCfg.verifies image cfgs (0, none) c hc hv p hp hm
+    unfold verifCfgFor bestMatch at h
+    simp only [Bool.false_eq_true, if_false] at h
+    rcases hok with h0 | ⟨c', hc', _⟩
+    · rw [h0] at hge; exact Nat.le_zero.mp hge
+    · rw [hc'] at h; simp only at h; split at h <;> cases h
+  · intro h
+    unfold verifCfgFor bestMatch
+    simp only [Bool.false_eq_true, if_false]
+    rcases hok with h0 | ⟨c', hc', hm, hv, p, hp, hpre, hlen, hpos⟩
+    · rw [h0]
+    · have := h c' hm hv p hp hpre
+      omega
 
-/-- Over all histories with verification enabled, starting with no revision verified:
-an `Establish` of revision `i` at step `n` is preceded by a signature reconcile of `i`
-that found no matching config or whose validator accepted the signature. -/
+/-- … and otherwise selects a config that carries a verification section, matches the
+image, and whose matching prefix is at least as long as every matching prefix of every
+config with a verification section: the verdict that counts is the best match's. -/
+theorem selected_config_is_longest_match (cfgs : List ImgCfg) (image : String) (v : Bool)
+    (h : verifCfgFor cfgs image false = (.some, v)) :
+    ∃ c ∈ cfgs, c.verif = .cosign ∧ c.ok = v ∧ ∃ p ∈ c.prefixes, p.isPrefixOf image = true ∧
+      ∀ c' ∈ cfgs, c'.verifies = true → ∀ p' ∈ c'.prefixes, p'.isPrefixOf image = true →
+        p'.utf8ByteSize ≤ p.utf8ByteSize := by
+  have hok := scanCfgs_ok ImgCfg.verifies image cfgs cfgs (fun _ h => h) (0, none) (Or.inl rfl)
+  unfold verifCfgFor bestMatch at h
+  simp only [Bool.false_eq_true, if_false] at h
+  rcases hok with h0 | ⟨c, hc, hm, hv, p, hp, hpre, hlen, _⟩
+  · rw [h0] at h; cases h
+  · rw [hc] at h
+    simp only at h
+    split at h
+    · cases h
+    · rename_i hnc
+      simp only [Prod.mk.injEq, true_and] at h
+      refine ⟨c, hm, ?_, h, p, hp, hpre, ?_⟩
+      · have hnc' : c.verif ≠ .nocosign := by simpa using hnc
+        have hv' : c.verif ≠ .none := by simpa [ImgCfg.verifies] using hv
+        cases hcv : c.verif <;> simp_all
+      · intro c' hc' hv' p' hp' hm'
+        rw [hlen]
+        exact scanCfgs_ge ImgCfg.verifies image cfgs (0, none) c' hc' hv' p' hp' hm'
+
+/-- step `m` of the history is a signature reconcile of revision `i` that may
+legitimately verify it: in the world it was taken from, no ImageConfig with a verification
+section matches the revision's source, or the best match's validator accepted the image -/
+def AuthorizedAt (revs : List Rev) (w : World) (steps : List Step) (i m : Nat) : Prop :=
+  ∃ sf r, steps[m]? = some (.verify i sf) ∧ revs[i]? = some r ∧
+    ((verifCfgFor (worldAt true true revs w steps m).cfgs r.source sf.listErr).1 = .none ∨
+     ((verifCfgFor (worldAt true true revs w steps m).cfgs r.source sf.listErr).1 = .some ∧
+      (verifCfgFor (worldAt true true revs w steps m).cfgs r.source sf.listErr).2 = true))
+
+/-- a step leaves a revision Verified only if it was Verified before or the step is an
+authorizing signature reconcile of it -/
+theorem step_verified (revs : List Rev) (w : World) (s : Step) (i : Nat) (st : RevSt)
+    (hst : (w.step true true revs s).1.sts[i]? = some st) (hv : st.verif.isTrue = true) :
+    (∃ st0, w.sts[i]? = some st0 ∧ st0.verif.isTrue = true) ∨
+    (∃ sf r, s = .verify i sf ∧ revs[i]? = some r ∧
+      ((verifCfgFor w.cfgs r.source sf.listErr).1 = .none ∨
+       ((verifCfgFor w.cfgs r.source sf.listErr).1 = .some ∧ (verifCfgFor w.cfgs r.source sf.listErr).2 = true))) := by
+  cases s with
+  | configs cfgs => exact Or.inl ⟨st, hst, hv⟩
+  | verify j sf =>
+    simp only [World.step] at hst
+    split at hst
+    · rename_i r st0 hr hst0
+      dsimp only at hst
+      by_cases hij : j = i
+      · subst hij
+        rw [List.getElem?_set] at hst
+        simp only [if_true] at hst
+        split at hst
+        · simp only [Option.some.injEq] at hst
+          subst hst
+          rcases verified_only_by_validation _ _ sf st0 hv with h1 | h1 | h1
+          · exact Or.inl ⟨st0, hst0, h1⟩
+          · exact Or.inr ⟨sf, r, rfl, hr, Or.inl h1⟩
+          · exact Or.inr ⟨sf, r, rfl, hr, Or.inr h1⟩
+        · cases hst
+      · rw [List.getElem?_set_ne hij] at hst
+        exact Or.inl ⟨st, hst, hv⟩
+    · exact Or.inl ⟨st, hst, hv⟩
+  | reconcile j active deleted f =>
+    simp only [World.step] at hst
+    split at hst
+    · rename_i r st0 hr hst0
+      dsimp only at hst
+      by_cases hij : j = i
+      · subst hij
+        rw [List.getElem?_set] at hst
+        simp only [if_true] at hst
+        split at hst
+        · simp only [Option.some.injEq] at hst
+          subst hst
+          have hvv : st0.verif.isTrue = true := by
+            split at hv
+            · have := applyEnv_verif _ _ hv
+              rw [recStep_verif, envStep_verif] at this; exact this
+            · rw [recStep_verif, envStep_verif] at hv; exact hv
+          exact Or.inl ⟨st0, hst0, hvv⟩
+        · cases hst
+      · rw [List.getElem?_set_ne hij] at hst
+        exact Or.inl ⟨st, hst, hv⟩
+    · exact Or.inl ⟨st, hst, hv⟩
+
+/-- Over all histories with verification enabled, starting with no revision verified –
+reconciles of any revisions under any fault plans, third-party writes that wipe the status
+or re-create a revision, edits of the ImageConfigs: an `Establish` of revision `i` at step
+`n` is preceded by a signature reconcile of `i` that found no matching verification config
+among the ImageConfigs of that moment, or whose best match's validator accepted the image. -/
 theorem verify_gate_history (revs : List Rev) (w : World)
     (hw : ∀ (i : Nat) (st : RevSt), w.sts[i]? = some st → st.verif.isTrue = false) (steps : List Step) :
     ∀ n s o, steps[n]? = some s → (World.run true true revs w steps).2[n]? = some o → o.est ≠ none →
-      ∃ s' ∈ steps.take n, authorizes s.idx s' := by
-  -- generalise: `pre` = steps already taken
-  suffices H : ∀ (steps pre : List Step) (w : World),
-      (∀ i st, w.sts[i]? = some st → st.verif.isTrue = true → ∃ s' ∈ pre, authorizes i s') →
-      ∀ n s o, steps[n]? = some s → (World.run true true revs w steps).2[n]? = some o → o.est ≠ none →
-        ∃ s' ∈ pre ++ steps.take n, authorizes s.idx s' by
-    intro n s o hs ho he
-    have := H steps [] w (by intro i st hst hv; rw [hw i st hst] at hv; cases hv) n s o hs ho he
-    simpa using this
-  intro steps
-  induction steps with
-  | nil => intro pre w _ n s o hs; simp at hs
-  | cons s0 ss ih =>
-    intro pre w hV n s o hs ho he
-    cases n with
+      ∃ m, m < n ∧ AuthorizedAt revs w steps s.idx m := by
+  have inv : ∀ k, k ≤ steps.length → ∀ i st, (worldAt true true revs w steps k).sts[i]? = some st →
+      st.verif.isTrue = true → ∃ m, m < k ∧ AuthorizedAt revs w steps i m := by
+    intro k
+    induction k with
     | zero =>
-      simp only [List.getElem?_cons_zero, Option.some.injEq] at hs
-      subst hs
-      simp only [World.run, List.getElem?_cons_zero, Option.some.injEq] at ho
-      subst ho
-      cases s0 with
-      | verify i cfg valid =>
-        simp only [World.step] at he
-        split at he <;> simp at he
-      | reconcile i active deleted f =>
-        simp only [World.step] at he
-        split at he
-        · rename_i r st hr hst
-          dsimp only at he
-          cases hest : (recStep true true r f w.cache (envStep active deleted st)).2.2.est with
-          | none => exact absurd hest he
-          | some objs =>
-            obtain ⟨_, _, hv, _⟩ := recStep_est true r f w.cache _ objs hest
-            have hv' : st.verif.isTrue = true := by
-              have := hv rfl
-              rw [envStep_verif] at this
-              exact this
-            obtain ⟨s', hs', ha⟩ := hV i st hst hv'
-            exact ⟨s', by simpa using hs', ha⟩
-        · simp at he
-    | succ n =>
-      simp only [List.getElem?_cons_succ] at hs
-      simp only [World.run, List.getElem?_cons_succ] at ho
-      have hV' : ∀ i st, (w.step true true revs s0).1.sts[i]? = some st → st.verif.isTrue = true →
-          ∃ s' ∈ pre ++ [s0], authorizes i s' := by
-        intro i st hst hv
-        cases s0 with
-        | verify j cfg valid =>
-          simp only [World.step] at hst
-          split at hst
-          · rename_i st0 hst0
-            dsimp only at hst
-            by_cases hij : j = i
-            · subst hij
-              rw [List.getElem?_set] at hst
-              simp only [if_true] at hst
-              split at hst
-              · simp only [Option.some.injEq] at hst
-                subst hst
-                rcases verified_only_by_validation cfg valid st0 hv with h1 | h1
-                · obtain ⟨s', hs', ha⟩ := hV j st0 hst0 h1
-                  exact ⟨s', by simp [hs'], ha⟩
-                · exact ⟨.verify j cfg valid, by simp, ⟨rfl, h1⟩⟩
-              · cases hst
-            · rw [List.getElem?_set_ne hij] at hst
-              obtain ⟨s', hs', ha⟩ := hV i st hst hv
-              exact ⟨s', by simp [hs'], ha⟩
-          · obtain ⟨s', hs', ha⟩ := hV i st hst hv
-            exact ⟨s', by simp [hs'], ha⟩
-        | reconcile j active deleted f =>
-          simp only [World.step] at hst
-          split at hst
-          · rename_i r st0 hr hst0
-            dsimp only at hst
-            by_cases hij : j = i
-            · subst hij
-              rw [List.getElem?_set] at hst
-              simp only [if_true] at hst
-              split at hst
-              · simp only [Option.some.injEq] at hst
-                subst hst
-                have hvv : st0.verif.isTrue = true := by
-                  rw [recStep_verif, envStep_verif] at hv; exact hv
-                obtain ⟨s', hs', ha⟩ := hV j st0 hst0 hvv
-                exact ⟨s', by simp [hs'], ha⟩
-              · cases hst
-            · rw [List.getElem?_set_ne hij] at hst
-              obtain ⟨s', hs', ha⟩ := hV i st hst hv
-              exact ⟨s', by simp [hs'], ha⟩
-          · obtain ⟨s', hs', ha⟩ := hV i st hst hv
-            exact ⟨s', by simp [hs'], ha⟩
-      obtain ⟨s', hs', ha⟩ := ih (pre ++ [s0]) _ hV' n s o hs ho he
-      exact ⟨s', by simpa [List.take_succ_cons, List.append_assoc] using hs', ha⟩
+      intro _ i st hst hv
+      simp only [worldAt, List.take_zero, World.run] at hst
+      rw [hw i st hst] at hv; cases hv
+    | succ k ih =>
+      intro hk i st hst hv
+      have hk' : k < steps.length := hk
+      have hs : steps[k]? = some steps[k] := List.getElem?_eq_getElem hk'
+      rw [worldAt_succ true true revs w steps k _ hs] at hst
+      rcases step_verified revs _ _ i st hst hv with ⟨st0, h0, hv0⟩ | ⟨sf, r, hsv, hr, hc⟩
+      · obtain ⟨m, hm, ha⟩ := ih (Nat.le_of_lt hk') i st0 h0 hv0
+        exact ⟨m, Nat.lt_succ_of_lt hm, ha⟩
+      · exact ⟨k, Nat.lt_succ_self k, sf, r, by rw [hs, hsv], hr, hc⟩
+  intro n s o hs ho he
+  have hn : n < steps.length := by
+    rcases Nat.lt_or_ge n steps.length with h | h
+    · exact h
+    · rw [List.getElem?_eq_none h] at hs; cases hs
+  have ho' := run_out true true revs w steps n s o hs ho
+  subst ho'
+  cases s with
+  | configs cfgs => simp [World.step] at he
+  | verify i sf =>
+    simp only [World.step] at he
+    split at he <;> simp at he
+  | reconcile i active deleted f =>
+    simp only [World.step] at he
+    split at he
+    · rename_i r st hr hst
+      dsimp only at he
+      cases hest : (recStep true true r f (worldAt true true revs w steps n).cache (envStep active deleted st)).2.2.est with
+      | none => exact absurd hest he
+      | some objs =>
+        obtain ⟨_, _, hv, _⟩ := recStep_est true r f _ _ objs hest
+        have hv' : st.verif.isTrue = true := by
+          have := hv rfl
+          rw [envStep_verif] at this
+          exact this
+        exact inv n (Nat.le_of_lt hn) i st hst hv'
+    · simp at he
 
 /-! ### the pinned tree (without fixes/D6.diff) violates the property -/
 
@@ -398,8 +550,14 @@ example : Compat [wRev, { wRev with key := "/cache/other.gz" }] := by
 /-- `Establish` is reached from a cold cache, from a warm cache, and after a failed pull -/
 example : ((recStep true false wRev {} Cache.empty {}).2.2.est.map List.length) = some 4 := by decide
 example : ((recStep true false wRev {} (Cache.empty.put wRev.key (.content wRev.docs)) {}).2.2.est.map List.length) = some 4 := by decide
-/-- with verification enabled: not before, but after a successful signature reconcile -/
-example : ((World.run true true [wRev] wWorld [.reconcile 0 true false {}, .verify 0 .some true, .reconcile 0 true false {}]).2.map
+/-- with verification enabled: not before, but after a signature reconcile that finds no
+verification config for the image -/
+example : ((World.run true true [wRev] wWorld [.reconcile 0 true false {}, .verify 0 {}, .reconcile 0 true false {}]).2.map
     (fun o => o.est.map List.length)) = [none, none, some 4] := by decide
+/-- a third party wipes the status between the read and the metadata update: nothing is
+established, and the next reconcile waits for verification again -/
+example : ((World.run true true [wRev] { wWorld with sts := [{ verif := .skipped }] }
+    [.reconcile 0 true false { env := .wipe }, .reconcile 0 true false {}]).2.map
+    (fun o => (o.res, o.est.map List.length))) = [("requeue", none), ("ok", none)] := by decide
 
 end Xp.C15
